@@ -331,8 +331,15 @@ type Info struct {
 // ChannelCounts counts the number of messages on each channel in an Info.
 func (i *Info) ChannelCounts() map[string]uint64 {
 	counts := make(map[string]uint64)
+	if i.Statistics == nil {
+		return counts
+	}
 	for k, v := range i.Statistics.ChannelMessageCounts {
 		channel := i.Channels[k]
+		if channel == nil {
+			// the statistics may mention channels that the summary does not repeat
+			continue
+		}
 		counts[channel.Topic] = v
 	}
 	return counts
